@@ -45,6 +45,8 @@ func init() { chkSpan.Journal = true; chkShift.Journal = true }
 func TestSpanAndScope(t *testing.T) {
 	vf.Rapid(t, func(rt *rapid.T) {
 		c := dcheck.Gen(rt, lgen.Lines())
+		// now and then the program comes from a file that starts with a '#' line (skipped by LoadFile, counted as a line)
+		c.Shebang = rapid.IntRange(0, 7).Draw(rt, "fromfile") == 0
 		c.Src = lgen.LinesPrelude + c.Src
 		chkSpan.Run(rt, c)
 	})
